@@ -7,7 +7,7 @@
 EXTENDS Codec, Json, IOUtils
 
 ASSUME JsonSerialize(IOEnv.C15_DOMAIN,
-                     [rule |-> RuleSeq, uniq |-> UniqSeq, uid |-> UidSeq, event |-> EventSeq,
+                     [rule |-> RuleSeq, uniq |-> UniqSeq, uid |-> UidSeq, event |-> EventSeq, dn |-> DnSeq,
                       zk |-> ZkSeq, ldap |-> LdapSeq, ldapupd |-> LdapUpdSeq,
                       updextra |-> [partition |-> PartitionUpd, cellalloc |-> CellAllocUpd, app |-> AppUpd],
                       specs |-> [partition |-> PartitionSpec, cellalloc |-> CellAllocSpec,
